@@ -107,7 +107,8 @@ def get_pos_infinity(dtype, max_for_int=False):
             return np.inf
 
     if issubclass(dtype.type, np.complexfloating):
-        return np.inf + 1j * np.inf
+        # (np.inf + 1j * np.inf is nan+infj: the product 1j * inf has a NaN real part)
+        return complex(np.inf, np.inf)
 
     return INF
 
@@ -140,7 +141,7 @@ def get_neg_infinity(dtype, min_for_int=False):
             return -np.inf
 
     if issubclass(dtype.type, np.complexfloating):
-        return -np.inf - 1j * np.inf
+        return complex(-np.inf, -np.inf)
 
     return NINF
 
